@@ -17,7 +17,8 @@ STABS = ['stabilization/4.1.3', 'stabilization/4.1.4', 'stabilization/5.1.1',
 HOTFIXES = ['hotfix/4.1.2', 'hotfix/4.0.5', 'hotfix/5.1.0']
 UNIVERSE = DEVS + STABS + HOTFIXES
 TAGS = ['4.1.2', '4.1.3', '4.1.3-rc1', 'v5.1.0', '4.1.2.1', '5.0.1_hf2',
-        '10.0.0', '4.0.5.0', '4.2.0', '5.1.0.3', '5.0.0']
+        '10.0.0', '4.0.5.0', '4.2.0', '5.1.0.3', '5.0.0', '4.1.2.2',
+        'v4.1.2']
 
 
 # ---------------------------------------------------------------------------
@@ -218,7 +219,9 @@ def enum_part(p, part, nparts, tier):
         if idx % nparts != part:
             continue
         # (1) all tag sets x all destinations, through build()
-        for ts in tagsets(max_t):
+        for ts0 in tagsets(max_t):
+          # every order in which `git tag` may list them
+          for ts in sorted(set(itertools.permutations(ts0))):
             for dst in bs:
                 real = run_real(B, X, list(bs), list(ts), dst, False)
                 ref = reference(bs, ts, dst)
@@ -267,7 +270,8 @@ def run(tier, seed, workers=None):
         rule='every subset (<=4 quick, <=5 thorough) of a 15-branch universe '
              '(development x.y / x over majors 4,5,10, one or two '
              'stabilizations per line, hotfix branches) x every set of <=2 '
-             '(<=3) tags from 11 released / suffixed / v-prefixed / x.y.z.n '
+             '(<=3) tags from 13 released / suffixed / v-prefixed / x.y.z.n '
+             'forms, listed in every order, '
              'forms x every branch as destination through build(); plus every '
              'discovery order (all permutations) through add_branch; '
              'non-trivial = accepted cascade with more than one target',
